@@ -38,7 +38,7 @@ def classify(pid, d):
 
 CLASSIFIERS = {}
 
-ALL_EXTRACTORS = ["Basic", "Message", "Conversion", "Session", "Service", "SigGrammar", "Value", "Reader", "Encoding", "GenReaders", "Endpoint", "Stream", "Client", "Queues", "Auth", "Calls", "Signals", "Property", "Directory"]
+ALL_EXTRACTORS = ["Basic", "Message", "Conversion", "Session", "Service", "SigGrammar", "Value", "Reader", "Encoding", "GenReaders", "Endpoint", "Stream", "Client", "Queues", "Auth", "Calls", "Signals", "Property", "Directory", "Mailbox"]
 
 
 def lean_string_list(path, name):
@@ -343,5 +343,24 @@ PROPS = {
             "the linearizability acceptor of the driver is a brute-force search over short histories, not a proved decision procedure",
         ],
         "timeout": {"quick": 600, "thorough": 3000},
+    },
+    "C12": {
+        "level": "proof",
+        "extract": ["Mailbox", "Signals", "Endpoint", "Queues"],
+        "rule": "per scenario a child process (4 GiB address-space ceiling) runs a directory server with a PingPong and a Bomb "
+                "service on a unix socket; a hostile authenticated client sends: valid mixed traffic; 40 repeated / "
+                "conflicting / foreign (un)subscriptions incl. the same id twice and wrong object ids; 200 raw frames of "
+                "every type to every service / object / action (removal requests excluded) with random and truncated "
+                "arguments; 60 requests whose string length fields are 0xFFFFFFFF, 0x7FFFFFFF, 0x80000000, 16 MiB, "
+                "10 MiB + 1, 4097; a flood of 3000 calls while reading; 20 connections that subscribe, start a frame and "
+                "vanish in the middle of it; then a fresh client must get an answer from all three objects within 4 s; "
+                "two further scenarios exhibit the known findings (hostile element count; flood without reading)",
+        "assumptions": [
+            "the model covers the lock discipline of the subscription table and the blocking write; decoding and dispatch "
+            "totality are the subject of C04, C07 and C08 and are only exercised here",
+            "bounded time is observed (4 s deadline for the probe), not proved",
+            "removal requests (terminate, unregisterService) are excluded from the hostile sequences: they remove what they name (C16, C15)",
+        ],
+        "timeout": {"quick": 900, "thorough": 3000},
     },
 }
